@@ -325,15 +325,35 @@ class Gen:
             raise ValueError(op)
         # malformed shapes of a defined request
         if shape < 0.10 and len(pdu) > 1:
-            cut = rng.randrange(1, len(pdu))
-            minimal = {0x02: 3, 0x04: 5, 0x06: 7, 0x08: 7, 0x0A: 3, 0x0C: 5, 0x0E: 1, 0x10: 7, 0x12: 3, 0x52: 3,
-                       0xD2: 3, 0x16: 5, 0x18: 2, 0x20: 1}[op]
-            if cut < minimal:
-                return pdu[:cut], 'truncated'
+            cut = pdu[:rng.randrange(1, len(pdu))]
+            if shape_label(cut) == 'truncated':
+                return cut, 'truncated'
         elif shape < 0.16 and op in (ra.EXCHANGE_MTU_REQ, ra.FIND_INFO_REQ, ra.READ_REQ, ra.READ_BLOB_REQ,
                                      ra.EXECUTE_WRITE_REQ):
             return pdu + bytes(rng.randrange(256) for _ in range(rng.choice([1, 2, 30]))), 'over-long'
         return pdu, label
+
+
+FIXED_PART = {0x02: 3, 0x04: 5, 0x06: 7, 0x08: 5, 0x0A: 3, 0x0C: 5, 0x0E: 1, 0x10: 5, 0x12: 3, 0x52: 3, 0xD2: 3,
+              0x16: 5, 0x18: 2, 0x20: 1}
+
+
+def shape_label(pdu: bytes):
+    """Label of a *malformed* defined client PDU judged from opcode and length alone
+    (Part F 3.4.x layouts); None when the length is acceptable for the opcode."""
+    op = pdu[0]
+    if op not in FIXED_PART:
+        return None
+    if len(pdu) < FIXED_PART[op]:
+        return 'truncated'
+    if op in (0x08, 0x10) and len(pdu) - 5 not in (2, 16):
+        return 'truncated' if len(pdu) - 5 < 2 else 'bad-uuid-length'
+    if op in (0x0E, 0x20):
+        n = len(pdu) - 1
+        return 'empty-set' if n == 0 else 'one-byte-set' if n == 1 else 'odd-length-set' if n % 2 else None
+    if op in (0x02, 0x04, 0x0A, 0x0C, 0x18) and len(pdu) > FIXED_PART[op]:
+        return 'over-long'
+    return None
 
 
 REQUEST_OPS = sorted(ra.REQUESTS)
@@ -412,15 +432,12 @@ async def sweep_case(case, r: R):
             mtu = bearer.pairing.mtu
             bodies = [b'', bytes([rng.randrange(256)])] + [
                 bytes(rng.randrange(256) for _ in range(n)) for n in (2, 4, 6, 22, 600)]
-            pdus = [(bytes([op]) + b, 'random-body') for b in bodies]
+            pdus = [(bytes([op]) + b, shape_label(bytes([op]) + b) or 'random-body') for b in bodies]
             v, vl = valid_form(g, op, mtu)
             if v is not None:
                 pdus.append((v, vl))
-                pdus += [(v[:k], 'truncated') for k in range(1, len(v))][:8]
-                pdus.append((v + b'\x00' * 7, 'over-long'))
-            if op in ra.REQUESTS:
-                # a defined request with a random body is "some parameter values"
-                pass
+                pdus += [(v[:k], shape_label(v[:k]) or 'shortened') for k in range(1, len(v))][:8]
+                pdus.append((v + b'\x00' * 7, shape_label(v + b'\x00' * 7) or 'extended'))
             for pdu, label in pdus:
                 if op == ra.EXCHANGE_MTU_REQ and bearer.kind == 'att' and len(pdu) == 3:
                     label = 'valid' if struct.unpack_from('<H', pdu, 1)[0] >= 23 else 'below-23'
@@ -546,7 +563,7 @@ async def notify_case(case, r: R):
             tasks = [asyncio.ensure_future(server.indicate_subscribers(m.obj, ra.marker_value(m.index, max(0, ln))))
                      for ln in lens]
         r.ev('indicate_calls', n_ind)
-        for _round in range(n_ind + 2):
+        for _round in range(n_ind * len(bearers) + 3):
             await hs.rg.quiesce()
             await asyncio.sleep(0.2)
             await hs.rg.quiesce()
@@ -588,8 +605,6 @@ def finish_case(case, r: R, hs, bearers, trail, info, enc, auth):
         r.sig(case['kind'], tuple(b.kind for b in bearers), mtus, tuple(trail))
     r.sched.add(hs.rg.schedule_signature)
     r.evals(max(1, len(trail)))
-    for b in bearers:
-        r.ev('max_server_pdu_' + b.kind, 0)
     perms = sorted({m.perm for m in hs.models})
     r.extra['permission_bytes_in_databases'] = perms
     r.extra['labels_seen'] = sorted({f'{ra.opname(o)}:{l}' for _b, o, l in trail if o >= 0})[:100]
